@@ -610,5 +610,5 @@ func TestInputs(t *testing.T) {
 	if len(proj.Vectors("inputs")) == 0 {
 		t.Skip("inputs probe not linked")
 	}
-	vfrun.Run(t, vfrun.Prop[InputCase]{Property: "C02", Name: "TestInputs", Gen: genInput, Check: checkInput}, vfrun.N(6000, 400000))
+	vfrun.Run(t, vfrun.Prop[InputCase]{Property: "C02", Name: "TestInputs", Gen: genInput, Check: checkInput}, vfrun.N(6000, 1200000))
 }
